@@ -3,7 +3,8 @@
 import json, subprocess, sys, os
 
 V = os.path.dirname(os.path.dirname(os.path.abspath(__file__)))
-BASELINE = json.load(open('/root/.vp/BASELINE.json'))['cmd'] if os.path.exists('/root/.vp/BASELINE.json') else ''
+# the pinned suite command of /root/.vp/BASELINE.json, without its '(fallback: ...)' remark, guard off (no extra flags)
+BASELINE = 'cd /repo && cargo nextest run --workspace --no-fail-fast --tool-config-file pb:/w/lib/nextest.toml --profile pb --test-threads 8 --offline'
 
 CLAIMED = {
  # id: (level, engine, design_ref, technique, level text, level note)
